@@ -352,7 +352,7 @@ def homogeneous_poisson_exp_interval_online(
                 torch.empty_like(intervals[spikes]).exponential_(
                     1.0, generator=generator
                 )
-                * inputs
+                * inputs[spikes]
                 + refrac
             )
 
